@@ -94,7 +94,18 @@ Section Readers.
   Hypothesis Hids : forallb has_id (subtrees t) = true.
   Hypothesis ND : NoDup (map id_of (subtrees t)).
   Hypothesis Hshape : forallb shape_ok (subtrees t) = true.
-  Let G := graph_of t.
+  (* the graph read from: it holds every sliver's node, and a sliver's neighbours in it are those it
+     has in graph_of t whenever `rootx` (about what the tree hangs under) allows *)
+  Variable G : graph.
+  Variable rootx : tree -> string -> string -> Prop.
+  Hypothesis HF : forall u, In u (subtrees t) -> find_node G (id_of u) = Some (rec_of u).
+  Hypothesis HN : forall u rel L, In u (subtrees t) -> rootx u rel L ->
+    get_first_neighbor G (id_of u) rel L = get_first_neighbor (graph_of t) (id_of u) rel L.
+  Hypothesis HX_if : forall u, t_kind u = KInterface -> is_dedicated u = true ->
+    rootx u rel_connects (class_label KInterface).
+  Hypothesis HX_ns : forall u, t_kind u = KService -> rootx u rel_connects (class_label KInterface).
+  Hypothesis HX_comp : forall u, t_kind u = KComponent -> rootx u rel_has (class_label KService).
+  Hypothesis HX_node : forall u L, t_kind u = KNode -> rootx u rel_has L.
 
   Lemma sub_wf u : In u (subtrees t) -> tree_wf u = true.
   Proof. apply tree_wf_sub. exact Hwf. Qed.
@@ -115,7 +126,7 @@ Section Readers.
     rewrite Hp in Hrt. cbn [bind] in Hrt.
     assert (NDp := to_props_result_nodup _ _ _ Hs Hp).
     split; [|split].
-    - unfold get_node_properties. unfold G. rewrite (find_in_G t ND u Hu). reflexivity.
+    - unfold get_node_properties. rewrite (HF u Hu). reflexivity.
     - apply from_props_node_props; assumption.
     - apply node_props_id. intro Hc. destruct (alookup_in_keys _ _ Hc) as [v Hv].
       destruct (sym_parts _ Hs) as [_ [NDg _]]. unfold to_props in Hp.
@@ -169,7 +180,8 @@ Section Readers.
     2: (destruct i as [l|]; [simpl in Hsh; discriminate Hsh | reflexivity]).
     (* a DedicatedPort: its kids are its neighbours *)
     assert (Hnb := neighbours t ND u rel_connects (class_label KInterface) Hu).
-    fold G in Hnb. rewrite Hnb.
+    assert (Hded : is_dedicated u = true) by (unfold is_dedicated, u; simpl t_attrs; rewrite Ety; exact Ed).
+    rewrite (HN u _ _ Hu (HX_if u eq_refl Hded)). rewrite Hnb.
     - cbn [bind].
       assert (Hfil : filter (fun c0 => String.eqb (class_label (t_kind c0)) (class_label KInterface)
                                       && String.eqb (relk (t_kind c0)) rel_connects) (kids u) = kids u).
@@ -204,8 +216,8 @@ Section Readers.
     unfold build_deep_ns_sliver. rewrite Hwl. cbn [bind]. rewrite H2. cbn [bind]. rewrite H3.
     assert (Hkid : forall c, In c (kids u) -> t_kind c = KInterface /\ tree_wf c = true).
     { intros c Hc. destruct (wf_kids u c Hwu Hc) as [A B]. rewrite Hk in B. auto. }
-    assert (Hnb := neighbours t ND u rel_connects (class_label KInterface) Hu). fold G in Hnb.
-    rewrite Hnb.
+    assert (Hnb := neighbours t ND u rel_connects (class_label KInterface) Hu).
+    rewrite (HN u _ _ Hu (HX_ns u Hk)). rewrite Hnb.
     - cbn [bind]. rewrite filter_all by (intros c0 Hc0; destruct (Hkid c0 Hc0) as [E _]; rewrite E; reflexivity).
       rewrite (mapM_ids _ (kids u)).
       + cbn [bind]. destruct u as [k [id|] a c n i]; [|discriminate Hn]. simpl in Hk. subst k.
@@ -226,8 +238,8 @@ Section Readers.
     unfold build_deep_component_sliver. rewrite Hwl. cbn [bind]. rewrite H2. cbn [bind]. rewrite H3.
     assert (Hkid : forall c, In c (kids u) -> t_kind c = KService /\ tree_wf c = true).
     { intros c Hc. destruct (wf_kids u c Hwu Hc) as [A B]. rewrite Hk in B. auto. }
-    assert (Hnb := neighbours t ND u rel_has (class_label KService) Hu). fold G in Hnb.
-    rewrite Hnb.
+    assert (Hnb := neighbours t ND u rel_has (class_label KService) Hu).
+    rewrite (HN u _ _ Hu (HX_comp u Hk)). rewrite Hnb.
     - cbn [bind]. rewrite filter_all by (intros c0 Hc0; destruct (Hkid c0 Hc0) as [E _]; rewrite E; reflexivity).
       rewrite (mapM_ids _ (kids u)).
       + cbn [bind]. destruct u as [k [id|] a c n i]; [|discriminate Hn]. simpl in Hk. subst k.
@@ -252,9 +264,9 @@ Section Readers.
     assert (Hnopar : forall v, In v (subtrees t) -> In u (kids v) -> False).
     { intros v Hv Hkv. destruct (wf_kids v u (sub_wf v Hv) Hkv) as [_ B]. rewrite Hk in B.
       destruct (t_kind v); try contradiction; try discriminate B; destruct B as [B|B]; discriminate B. }
-    assert (Hnb1 := neighbours t ND u rel_has (class_label KComponent) Hu). fold G in Hnb1.
-    assert (Hnb2 := neighbours t ND u rel_has (class_label KService) Hu). fold G in Hnb2.
-    rewrite Hnb1 by (intros v Hv Hkv; exfalso; exact (Hnopar v Hv Hkv)). cbn [bind].
+    assert (Hnb1 := neighbours t ND u rel_has (class_label KComponent) Hu).
+    assert (Hnb2 := neighbours t ND u rel_has (class_label KService) Hu).
+    rewrite (HN u _ _ Hu (HX_node u _ Hk)). rewrite Hnb1 by (intros v Hv Hkv; exfalso; exact (Hnopar v Hv Hkv)). cbn [bind].
     destruct u as [k [id|] a c n i]; [|discriminate Hn]. simpl in Hk. subst k.
     assert (Hwu' := Hwu). simpl in Hwu'. repeat rewrite andb_true_iff in Hwu'. destruct Hwu' as [[[Ha Hsc] Hsn] Hsi].
     apply (slot_none KInterface) in Hsi. subst i.
@@ -275,7 +287,7 @@ Section Readers.
       rewrite filter_all by (intros c0 Hc0; rewrite (Hkn c0 Hc0); reflexivity). reflexivity. }
     rewrite Hk1. rewrite (mapM_ids _ (olist c)).
     - cbn [bind]. rewrite (slot_info KComponent c Hsc). cbn [bind].
-      rewrite Hnb2 by (intros v Hv Hkv; exfalso; exact (Hnopar v Hv Hkv)). cbn [bind].
+      rewrite (HN u _ _ Hu (HX_node u _ eq_refl)). rewrite Hnb2 by (intros v Hv Hkv; exfalso; exact (Hnopar v Hv Hkv)). cbn [bind].
       rewrite Hk2. rewrite (mapM_ids _ (olist n)).
       + cbn [bind]. rewrite (slot_info KService n Hsn). reflexivity.
       + intros c0 Hc0. apply R_ns; [|exact (Hkn c0 Hc0)].
@@ -306,30 +318,132 @@ Proof.
   intro Hin. apply negb_true_iff in H1. rewrite existsb_id_true in H1 by exact Hin. discriminate.
 Qed.
 
+Lemma NoDup_strs_nodup l : NoDup l -> strs_nodup l = true.
+Proof.
+  induction 1 as [|x l NI ND IH]; [reflexivity|]. simpl. rewrite IH.
+  rewrite existsb_id_false by exact NI. reflexivity.
+Qed.
+
+Lemma existsb_str_in x l : existsb (str_eqb x) l = true <-> In x l.
+Proof.
+  split.
+  - intro H. apply existsb_exists in H as [y [Hy E]]. apply str_eqb_eq in E. subst. exact Hy.
+  - apply existsb_id_true.
+Qed.
+
+Lemma good_graph_good g : good_graph g = true <-> good g.
+Proof.
+  unfold good_graph, good, edges_closed. split.
+  - intro H. apply andb_true_iff in H as [H1 H2]. split; [apply strs_nodup_NoDup; exact H1|].
+    intros a r b Hin. rewrite forallb_forall in H2. specialize (H2 _ Hin). cbn in H2.
+    apply andb_true_iff in H2 as [Ha Hb]. split; apply existsb_str_in; assumption.
+  - intros [ND EC]. apply andb_true_iff. split; [apply NoDup_strs_nodup; exact ND|].
+    apply forallb_forall. intros [[a r] b] Hin. destruct (EC a r b Hin) as [Ha Hb].
+    apply andb_true_iff. split; apply existsb_str_in; assumption.
+Qed.
+
+(* a stand-in for the node the tree hangs under (only its id matters to the writers) *)
+Definition ptree (pid : str) : tree := T KLink (Some pid) [] None None None.
+
 Lemma grown_empty t : grown empty_graph None t = graph_of t.
 Proof. reflexivity. Qed.
 
-(* THE GRAPH ROUTE, any nesting: a sliver tree written into an empty graph with add_*_sliver and
-   rebuilt with build_deep_*_sliver comes back identical - structure, attributes, node ids. *)
+(* THE GRAPH ROUTE, any nesting, any graph: a sliver tree whose node ids are fresh is written with
+   add_*_sliver into a well-formed graph - stand-alone or under an existing node of the right class -
+   and rebuilt with build_deep_*_sliver identical; the graph only grows (frame): every old node keeps
+   its record and its neighbours, except that the parent gains the tree's root. *)
+Theorem graph_under_generic g parent t :
+  all_tables_ok = true -> add_interface_descends = true ->
+  good_graph g = true -> graph_wf_sub t = true -> fresh_in g t = true -> parent_ok g parent t = true ->
+  exists g', add_under g parent t = Ok g' /\
+    build_deep g' (t_kind t) (id_of t) = Ok t /\
+    good_graph g' = true /\
+    gids g' = gids g ++ map id_of (subtrees t) /\
+    (forall x, In x (gids g) -> find_node g' x = find_node g x) /\
+    (forall x rel L, In x (gids g) -> parent <> Some x ->
+                     get_first_neighbor g' x rel L = get_first_neighbor g x rel L).
+Proof.
+  intros Hok Hdesc Hgg Hgw Hfr Hpo.
+  apply good_graph_good in Hgg. unfold fresh_in in Hfr. apply strs_nodup_NoDup in Hfr.
+  unfold graph_wf_sub in Hgw. repeat rewrite andb_true_iff in Hgw. destruct Hgw as [[Hwf Hids] Hshape].
+  assert (Hroot : In t (subtrees t)) by (rewrite subtrees_eq; left; reflexivity).
+  assert (Hn := has_id_nid t (forallb_subtrees_root _ _ Hids)).
+  assert (NDt := NoDup_app_right _ _ Hfr).
+  set (par := option_map ptree parent).
+  assert (Hpar : forall pt, par = Some pt -> In (id_of pt) (gids g)).
+  { intros pt E. unfold par in E. destruct parent as [pid|]; [|discriminate E]. inversion E; subst pt.
+    unfold parent_ok in Hpo. destruct (find_node g pid) as [n|] eqn:Ef; [|discriminate Hpo].
+    apply find_node_some_in in Ef as [Hin Eid]. change (id_of (ptree pid)) with pid. rewrite <- Eid.
+    unfold gids. apply in_map. exact Hin. }
+  assert (Hparid : option_map id_of par = parent) by (unfold par; destruct parent; reflexivity).
+  (* the writer *)
+  assert (HW : add_under g parent t = Ok (grown g par t)).
+  { unfold add_under. unfold parent_ok in Hpo. destruct (t_kind t) eqn:Ek; destruct parent as [pid|] eqn:Ep;
+      try (destruct (find_node g pid); discriminate Hpo); try discriminate Hpo.
+    - apply (W_node Hok Hdesc t g Ek Hwf Hids Hgg Hfr). exact Hpo.
+    - apply (W_comp Hok Hdesc t g (ptree pid) Ek Hwf Hids Hgg); [|exact Hfr]. apply (Hpar (ptree pid)). reflexivity.
+    - rewrite <- Hparid. apply (W_ns Hok Hdesc t Ek Hwf Hids g par); try assumption. intros _ E; discriminate E.
+    - rewrite <- Hparid. apply (W_ns Hok Hdesc t Ek Hwf Hids g par); try assumption. intros _ _. rewrite Ek. exact Hpo.
+    - rewrite <- Hparid. apply (W_if Hok Hdesc t Ek Hwf Hids g par); try assumption. intro E; discriminate E.
+    - rewrite <- Hparid. apply (W_if Hok Hdesc t Ek Hwf Hids g par); try assumption. intro E; discriminate E.
+    - apply (W_link Hok t g Ek Hwf (forallb_subtrees_root _ _ Hids)).
+      intro Hc. apply (NoDup_app_disj _ _ (id_of t) Hfr Hc). apply in_map. exact Hroot. }
+  exists (grown g par t). split; [exact HW|].
+  split; [|split; [|split; [|split]]].
+  - (* the reader *)
+    set (rootx := fun (u : tree) (rel L : string) =>
+           forall pt n, par = Some pt -> find_node g (id_of pt) = Some n -> u = t ->
+                        relk (t_kind t) = rel -> g_label n <> L).
+    assert (HF : forall u, In u (subtrees t) -> find_node (grown g par t) (id_of u) = Some (rec_of u))
+      by (intros u Hu; apply find_in_grown; assumption).
+    assert (HN : forall u rel L, In u (subtrees t) -> rootx u rel L ->
+              get_first_neighbor (grown g par t) (id_of u) rel L = get_first_neighbor (graph_of t) (id_of u) rel L).
+    { intros u rel L Hu Hx. apply neighbours_grown; assumption. }
+    assert (Hpn : forall pt n, par = Some pt -> find_node g (id_of pt) = Some n ->
+              exists pid, parent = Some pid /\ find_node g pid = Some n).
+    { intros pt n E Hf. unfold par in E. destruct parent as [pid|]; [|discriminate E]. inversion E; subst pt.
+      exists pid. split; [reflexivity | exact Hf]. }
+    assert (HX_if : forall u, t_kind u = KInterface -> is_dedicated u = true -> rootx u rel_connects (class_label KInterface)).
+    { intros u Hku Hd pt n E Hf Eu _ Hl. subst u. destruct (Hpn pt n E Hf) as [pid [Ep Hfp]].
+      unfold parent_ok in Hpo. rewrite Ep, Hfp, Hku in Hpo. rewrite Hl in Hpo. rewrite Hd in Hpo.
+      simpl in Hpo. rewrite andb_false_r in Hpo. discriminate Hpo. }
+    assert (HX_ns : forall u, t_kind u = KService -> rootx u rel_connects (class_label KInterface)).
+    { intros u Hku pt n E Hf Eu Hr _. subst u. rewrite Hku in Hr. discriminate Hr. }
+    assert (HX_comp : forall u, t_kind u = KComponent -> rootx u rel_has (class_label KService)).
+    { intros u Hku pt n E Hf Eu _ Hl. subst u. destruct (Hpn pt n E Hf) as [pid [Ep Hfp]].
+      unfold parent_ok in Hpo. rewrite Ep, Hfp, Hku in Hpo. rewrite Hl in Hpo. discriminate Hpo. }
+    assert (HX_node : forall u L, t_kind u = KNode -> rootx u rel_has L).
+    { intros u L Hku pt n E Hf Eu _ _. subst u. destruct (Hpn pt n E Hf) as [pid [Ep Hfp]].
+      unfold parent_ok in Hpo. rewrite Ep, Hfp, Hku in Hpo. discriminate Hpo. }
+    unfold build_deep. destruct (t_kind t) eqn:Ek.
+    + apply (R_node t Hok Hwf Hids NDt Hshape (grown g par t) rootx HF HN HX_if HX_ns HX_comp HX_node t Hroot Ek).
+    + apply (R_comp t Hok Hwf Hids NDt Hshape (grown g par t) rootx HF HN HX_if HX_ns HX_comp t Hroot Ek).
+    + apply (R_ns t Hok Hwf Hids NDt Hshape (grown g par t) rootx HF HN HX_if HX_ns t Hroot Ek).
+    + apply (R_if t Hok Hwf Hids NDt Hshape (grown g par t) rootx HF HN HX_if t Hroot Ek).
+    + apply (R_link t Hok Hwf Hids (grown g par t) HF t Hroot Ek).
+  - apply good_graph_good. apply good_grown; assumption.
+  - apply gids_grown.
+  - intros x Hx. apply frame_find; assumption.
+  - intros x rel L Hx Hnp. apply frame_neighbours; try assumption.
+    intros pt E Eid. apply Hnp. unfold par in E. destruct parent as [pid|]; [|discriminate E].
+    inversion E; subst pt. simpl in Eid. subst. reflexivity.
+Qed.
+
+(* the special case of an empty graph: graph_roundtrip *)
 Theorem graph_roundtrip_generic t :
   all_tables_ok = true -> add_interface_descends = true -> graph_wf t = true ->
   graph_roundtrip t = Ok t.
 Proof.
   intros Hok Hdesc Hg. unfold graph_wf in Hg. repeat rewrite andb_true_iff in Hg.
-  destruct Hg as [[[[Hwf Hk] Hids] Hnd] Hshape]. apply strs_nodup_NoDup in Hnd.
-  assert (Hroot : In t (subtrees t)) by (rewrite subtrees_eq; left; reflexivity).
+  destruct Hg as [[[[Hwf Hk] Hids] Hnd] Hshape].
   assert (Hn := has_id_nid t (forallb_subtrees_root _ _ Hids)).
-  assert (Hg0 := good_empty).
-  unfold graph_roundtrip, add_sliver. rewrite Hn.
-  destruct (t_kind t) eqn:Ek; try discriminate Hk.
-  - rewrite (W_node Hok Hdesc t Ek Hwf Hids Hnd). cbn [bind]. rewrite grown_empty.
-    apply (R_node t Hok Hwf Hids Hnd Hshape t Hroot Ek).
-  - assert (W := W_ns Hok Hdesc t Ek Hwf Hids empty_graph None (fun _ => eq_refl) Hg0).
-    cbn [option_map] in W. rewrite W; [|intros p E; discriminate E | exact Hnd].
-    cbn [bind]. rewrite grown_empty. apply (R_ns t Hok Hwf Hids Hnd Hshape t Hroot Ek).
-  - assert (W := W_if Hok Hdesc t Ek Hwf Hids empty_graph None (fun _ => eq_refl) Hg0).
-    cbn [option_map] in W. rewrite W; [|intros p E; discriminate E | exact Hnd].
-    cbn [bind]. rewrite grown_empty. apply (R_if t Hok Hwf Hids Hnd Hshape t Hroot Ek).
-  - rewrite (W_link Hok t Ek Hwf (forallb_subtrees_root _ _ Hids)). cbn [bind]. rewrite grown_empty.
-    apply (R_link t Hok Hwf Hids Hnd t Hroot Ek).
+  assert (Hpo : parent_ok empty_graph None t = true).
+  { unfold parent_ok. destruct (t_kind t); try reflexivity. discriminate Hk. }
+  assert (Hk' := Hk).
+  assert (Hgw : graph_wf_sub t = true) by (unfold graph_wf_sub; rewrite Hwf, Hids, Hshape; reflexivity).
+  destruct (graph_under_generic empty_graph None t Hok Hdesc eq_refl Hgw Hnd Hpo) as [g' [HW [HR _]]].
+  unfold graph_roundtrip. apply negb_true_iff in Hk. rewrite Hk. rewrite Hn.
+  assert (HA : add_sliver empty_graph t = add_under empty_graph None t).
+  { unfold add_sliver, add_under. destruct (t_kind t); reflexivity. }
+  rewrite HA, HW. cbn [bind]. exact HR.
 Qed.
